@@ -131,7 +131,7 @@ func ruleC12e(c *Ctx) []*report.Result {
 				local := false
 				switch a := st.Addr.(type) {
 				case *ssa.Alloc:
-					local = !a.Heap
+					local = !a.Heap || closureCellOnly(a)
 				case *ssa.FieldAddr:
 					if al, ok := a.X.(*ssa.Alloc); ok {
 						local = !al.Heap
@@ -146,6 +146,69 @@ func ruleC12e(c *Ctx) []*report.Result {
 		}
 	}
 	return []*report.Result{r}
+}
+
+// closureCellOnly: a heap cell that exists only because a closure captures
+// the variable, the closure being used as a call argument and nothing else
+// (it cannot outlive the call unless the callee keeps it, which for the
+// module's own helpers the same rule excludes).
+func closureCellOnly(al *ssa.Alloc) bool {
+	if al.Referrers() == nil {
+		return false
+	}
+	for _, ref := range *al.Referrers() {
+		switch x := ref.(type) {
+		case *ssa.Store:
+			if x.Addr != ssa.Value(al) {
+				return false
+			}
+		case *ssa.UnOp, *ssa.DebugRef:
+		case *ssa.MakeClosure:
+			if x.Referrers() == nil {
+				return false
+			}
+			for _, u := range *x.Referrers() {
+				ci, ok := u.(ssa.CallInstruction)
+				if !ok {
+					return false
+				}
+				if _, isGo := u.(*ssa.Go); isGo {
+					return false
+				}
+				if ci.Common().Value == ssa.Value(x) {
+					continue // called in place
+				}
+				g := ci.Common().StaticCallee()
+				if g == nil {
+					return false
+				}
+				// the callee only calls the function value
+				for i, a := range ci.Common().Args {
+					if a != ssa.Value(x) || i >= len(g.Params) {
+						continue
+					}
+					if g.Params[i].Referrers() == nil {
+						continue
+					}
+					for _, pu := range *g.Params[i].Referrers() {
+						if _, isDbg := pu.(*ssa.DebugRef); isDbg {
+							continue
+						}
+						pc, ok := pu.(ssa.CallInstruction)
+						if !ok || pc.Common().Value != ssa.Value(g.Params[i]) {
+							return false
+						}
+						if _, isGo := pu.(*ssa.Go); isGo {
+							return false
+						}
+					}
+				}
+			}
+		default:
+			return false
+		}
+	}
+	return true
 }
 
 // setter: calling fn installs the value when param < 0, or when the
@@ -405,23 +468,46 @@ func ruleC02b(c *Ctx) []*report.Result {
 				kinds := c.guardKinds(fn, b)
 				construct := shortFn(fn.String()) + " / " + f.Name()
 				if isSafeSite[call] {
-					ok := false
-					why := ""
-					for _, k := range kinds {
-						switch {
-						case strings.HasPrefix(k, "registry:"):
-							ok, why = true, "registered safe type"
-						case k == "type==safewrap":
-							ok, why = true, "Safe() wrapper"
-						case k == "assert:safevalue":
-							ok, why = true, "SafeValue"
-						case k == "assert:safemessager":
-							ok, why = true, "SafeMessager"
+					var justified func(fn *ssa.Function, b *ssa.BasicBlock, depth int) (bool, string)
+					justified = func(fn *ssa.Function, b *ssa.BasicBlock, depth int) (bool, string) {
+						for _, k := range c.guardKinds(fn, b) {
+							switch {
+							case strings.HasPrefix(k, "registry:"):
+								return true, "registered safe type"
+							case k == "type==safewrap":
+								return true, "Safe() wrapper"
+							case k == "assert:safevalue":
+								return true, "SafeValue"
+							case k == "assert:safemessager":
+								return true, "SafeMessager"
+							}
 						}
+						if recvNamed(fn) == tPP && len(fn.Params) == 2 && types.Implements(fn.Params[1].Type(), svIface) && (b == fn.Blocks[0] || len(c.guardKinds(fn, b)) == 0) {
+							return true, "emitter whose parameter type is a SafeValue"
+						}
+						// an unexported helper of the printer: justified when
+						// every one of its callers is
+						if depth < 2 && recvNamed(fn) == tPP && fn.Object() != nil && !fn.Object().Exported() && fn.Parent() == nil {
+							n := 0
+							for _, g := range c.P.ModuleFunctions() {
+								for _, gb := range g.Blocks {
+									for _, gi := range gb.Instrs {
+										if ci, ok := gi.(ssa.CallInstruction); ok && ci.Common().StaticCallee() == fn {
+											n++
+											if ok, _ := justified(g, gb, depth+1); !ok {
+												return false, ""
+											}
+										}
+									}
+								}
+							}
+							if n > 0 {
+								return true, "helper all of whose callers are declassified"
+							}
+						}
+						return false, ""
 					}
-					if !ok && b == fn.Blocks[0] && recvNamed(fn) == tPP && len(fn.Params) == 2 && types.Implements(fn.Params[1].Type(), svIface) {
-						ok, why = true, "emitter whose parameter type is a SafeValue"
-					}
+					ok, why := justified(fn, b, 0)
 					if ok {
 						r.Ok(construct + " guarded by " + why + " @" + pos)
 					} else {
@@ -444,6 +530,46 @@ func ruleC02b(c *Ctx) []*report.Result {
 		}
 	}
 	return []*report.Result{r}
+}
+
+// registryKey: ins consults a map-typed package variable of the printer —
+// directly (a lookup) or through a boolean helper of the module that returns
+// such a lookup of its parameter; the result is the key looked up, as a value
+// of the function ins belongs to.
+func (c *Ctx) registryKey(ins ssa.Instruction) (ssa.Value, bool) {
+	isRegistryLookup := func(lk *ssa.Lookup) bool {
+		u, ok := lk.X.(*ssa.UnOp)
+		if !ok {
+			return false
+		}
+		g, ok := u.X.(*ssa.Global)
+		return ok && pkgPathOfGlobal(g) == pkgRfmt
+	}
+	switch x := ins.(type) {
+	case *ssa.Lookup:
+		if isRegistryLookup(x) {
+			return x.Index, true
+		}
+	case *ssa.Call:
+		f := x.Common().StaticCallee()
+		if f == nil || !c.P.InModule(f) || f.Blocks == nil || f.Signature.Results().Len() != 1 {
+			return nil, false
+		}
+		rv := singleReturn(f)
+		if ex, ok := rv.(*ssa.Extract); ok {
+			rv = ex.Tuple
+		}
+		lk, ok := rv.(*ssa.Lookup)
+		if !ok || !isRegistryLookup(lk) {
+			return nil, false
+		}
+		if p, ok := lk.Index.(*ssa.Parameter); ok {
+			if i := paramIndex(f, p); i >= 0 && i < len(x.Common().Args) {
+				return x.Common().Args[i], true
+			}
+		}
+	}
+	return nil, false
 }
 
 // ruleC05e: the three detection routes cover the same check kinds.
@@ -545,16 +671,11 @@ func ruleC05e(c *Ctx) []*report.Result {
 							continue
 						}
 						for _, li := range lb.Instrs {
-							lk, ok := li.(*ssa.Lookup)
+							key, ok := c.registryKey(li)
 							if !ok {
 								continue
 							}
-							if u, ok := lk.X.(*ssa.UnOp); !ok {
-								continue
-							} else if _, isG := u.X.(*ssa.Global); !isG {
-								continue
-							}
-							if tc, ok := lk.Index.(*ssa.Call); ok {
+							if tc, ok := key.(*ssa.Call); ok {
 								if g := tc.Common().StaticCallee(); g != nil && g.String() == "(reflect.Value).Type" && tc.Common().Args[0] == v {
 									return true
 								}
@@ -785,16 +906,11 @@ func ruleC05g(c *Ctx) []*report.Result {
 						continue
 					}
 					for _, li := range lb.Instrs {
-						lk, ok := li.(*ssa.Lookup)
+						key, ok := c.registryKey(li)
 						if !ok {
 							continue
 						}
-						if u, ok := lk.X.(*ssa.UnOp); !ok {
-							continue
-						} else if _, ok := u.X.(*ssa.Global); !ok {
-							continue
-						}
-						tc, ok := lk.Index.(*ssa.Call)
+						tc, ok := key.(*ssa.Call)
 						if !ok {
 							continue
 						}
